@@ -9,7 +9,37 @@ GLOBAL = [
     "termination is not proved for functions that only have Kani obligations (unwinding assertions bound them instead)",
 ]
 
-GLUE = {}
+GLUE = {
+ "C02": ["that callers only ever present inv_file states (true initially by File::new; every contracted operation re-establishes it)",
+         "DirEntryEditor write-back of size across handles; two handles on the same file (documented as unsupported)",
+         "File harnesses use four concrete fixture geometries (FAT12 512 B, FAT16 2 KiB, FAT32 4 KiB clusters, 16 TiB volume); the geometry arithmetic itself is proved for all validated BPBs (geom_*)",
+         "the chain walk inside File::seek is bounded (target within the first 4 clusters)"],
+ "C03": ["directory-tree part of the invariant: dot/dot-dot contents, stale '..' after a move, nothing after the end marker, duplicate-name freedom, deletion of all slots of an entry in remove/rename_internal (Dir glue, outside both verifiers)",
+         "that every caller passes alloc_cluster / free a cluster it owns and a well-formed chain (wf_chain is a precondition)"],
+ "C04": ["that every in-memory change is eventually followed by one of the contracted flushes before the handle dies; equality of whole trees across a remount; File::extents (iterator-adaptor chain) is not under contract"],
+ "C05": ["that every path which changes the table goes through FileSystem::{alloc_cluster,free_cluster_chain,truncate_cluster_chain} (true by construction: the table mutators have no other callers besides format_volume)",
+         "fixed-root 'no sufficient run of free slots' (Dir::find_free_entries is Dir glue)",
+         "input assumption inv_count at mount: a foreign FAT32 FS-info count is 0xFFFFFFFF or correct"],
+ "C06": ["order and targets of the region writes inside format_volume (boot sector, backup copy, FAT area, root area, FS-info, label entry) and 'it mounts' as an end-to-end fact; 'boot-sector copies agree' is by construction (same serialize called twice)"],
+ "C07": ["FileSystem::new's composition of the contracted decoders (bounded harness only)"],
+ "C08": ["DirIter::read_dir_entry's loop wiring and equality of a full listing with a generator's ground truth"],
+ "C09": ["propagation through Dir::{create_*,remove,rename,iter} (all by `?`, not verified); destructors are exempt by the statement"],
+ "C10": ["that all table writes go through FileSystem::fat_slice (it is the only constructor; format_volume uses the same function)",
+         "input assumption: active_fat < fats when mirroring is off (not enforced at mount)"],
+ "C11": ["entry_pos really is the position of this file's entry (set by DirIter/write_entry: glue); directory-cluster ownership",
+         "the write-site census is a syntactic check, not a proof"],
+ "C12": ["the bracket over histories follows from the mechanism plus the write-site census; DirEntryEditor::write is the one raw write not preceded by a dirty-set (argued, not proved)"],
+ "C13": ["Dir::open_*/find_entry and DirIter::next compose the contracted calls (not verified)"],
+ "C14": ["that the directory entry and its long-name slots were written before the file handle existed (write_entry: glue); crash-prefix reconstruction semantics (outside this family)"],
+ "C15": ["'without side effects' for rejected names (order of validation inside create_*/rename: C01 glue)",
+         "strings of arbitrary length: per-character and per-length facts are complete, multi-character combinations are bounded",
+         "Unicode case folding itself (char::to_uppercase) is trusted (A-STD)"],
+ "C16": ["that find_entry visits every live entry before generate() is consulted; termination of the retry loop in check_for_existence (pigeonhole over 2^16*9 candidates)"],
+ "C17": ["DirIter::read_dir_entry's loop (one slot consumed per iteration) and ClusterIterator termination under valid cluster pointers are argued, not proved"],
+ "C18": ["'operations on other entries leave an entry's timestamps untouched' needs the directory-level frame (C01 glue)"],
+ "C19": ["byte-identity of images over operation histories; only contract equivalence of the cfg-selected implementations is proved"],
+ "C20": ["File harnesses at the 16 TiB fixture; the arithmetic is proved for all validated geometries"],
+}
 TRUSTED = {}
 
 
@@ -28,9 +58,48 @@ _NOTE = ("Trusted: Kani 0.68/CBMC 6.11, Verus/Z3; core/alloc (A-STD); storage be
          "features (A-LOG); harness environments in kani/common.rs. Per-run list of assume/stub/external_body sites is in evidence.coverage.trusted_base; "
          "glue not proved is in evidence.assumptions.")
 
-CLAIMS = {
+_BASE_CLAIMS = {
     "C06": {"text": "Proof over the whole option space of the boot-sector computation: format_boot_sector with default options is proved Ok and specification-valid for every total_sectors in [42, 2^32-1] (one symbolic harness), and for each cell of the (sector size x cluster size x forced FAT type x FAT count) grid with size/root entries/label/ids symbolic it never panics, errs only with InvalidInput and what validate accepts is valid_fresh. The I/O sequencing of format_volume (region writes) is glue, not proved.",
             "note": _NOTE, "technique": "Kani loop-free symbolic harnesses over the real format_boot_sector (complete per grid cell); Verus for format_fat/write_zeros loops"},
     "C07": {"text": "Proof, complete over all BPB field values: BootSector::validate never overflows/panics, Ok implies the specification's geometry predicate wf_bpb computed in 64-bit arithmetic, and every derived quantity (FAT width, cluster size/count, first data sector) equals an independent derivation; BPB/boot-sector/FS-info decoders are total on arbitrary bytes and equal the specification layout.",
             "note": _NOTE, "technique": "Kani loop-free symbolic harnesses on the real BiosParameterBlock/BootSector/FsInfoSector code (bit-precise, all inputs)"},
+}
+
+CLAIMS = {
+ "C02": {"text": "Per-call contracts of File::{read,write,seek,flush,drop} proved from ANY state satisfying the type invariant inv_file, for every buffer length, every cursor, every device content with valid cluster pointers: bounds on the count returned, the exact device address of the single data transfer (so reads and writes of the same offset hit the same bytes), cursor/size/first-cluster updates, re-establishment of inv_file. Composition over histories is by that invariant (stated, not mechanised). Partial: four fixture geometries, seek's chain walk bounded.",
+         "note": _NOTE, "technique": "Kani single-call contracts on the real File code over a nondeterministic device + Verus/Kani geometry proofs for all validated BPBs"},
+ "C03": {"text": "Allocation-table part and long-name-run part of the structural invariant, as contracts: FAT12/16/32 set/alloc_cluster/ClusterIterator::{free,truncate} proved in Verus for tables and chains of ANY size (exact frame: every other entry unchanged; allocated cluster was free; chain entries freed exactly; termination), LFN slot generation proved per step for every name length. The directory-tree part (dot entries, duplicates, slot deletion) is not decided.",
+         "note": _NOTE, "technique": "Verus contracts with loop invariants on mechanically extracted table functions; Kani per-step contract of the LFN generator; bounded Kani twins for replay"},
+ "C04": {"text": "Every encoder/decoder pair is proved two-sided against a layout specification written from the FAT specification (boot sector, BPB, FS-info, 32-byte short and long slots) and the write-back contracts (DirEntryEditor::flush, File::flush/drop, unmount) are proved; equality of whole trees across a remount is not decided.",
+         "note": _NOTE, "technique": "Kani loop-free symbolic harnesses over all byte blocks / field values; device-log contracts"},
+ "C05": {"text": "Table level (Verus, unbounded): count_free = number of free entries, find_free/alloc_cluster return NotEnoughSpace only if no entry in range is free, free() returns exactly the number of entries freed. FileSystem level (Kani, modular against the table contracts via stubs): cached counter -1/+n, hint in range, stats caches the recount, FS-info image carries count and hint.",
+         "note": _NOTE, "technique": "Verus loop invariants over free_count; Kani harnesses with contract stubs (#[kani::stub])"},
+ "C06": _BASE_CLAIMS["C06"],
+ "C07": _BASE_CLAIMS["C07"],
+ "C08": {"text": "Every decoding freedom the statement lists is a leaf contract against a specification-derived oracle (all raw FAT entry values incl. every end-of-chain marker and FAT32 high bits; active FAT / mirroring geometry; slot classification; short-name decoding with 0x05 and lowercase flags; OEM bytes), plus frame conditions for 'leaves everything else as it was' (set/alloc/free frames, DiskSlice write extent, 32-byte editor write, one-byte status write). Whole-listing equality is not decided.",
+         "note": _NOTE, "technique": "Kani complete harnesses over all raw values / 32-byte slots; Verus frames"},
+ "C09": {"text": "Table, slice, codec and single File/FileSystem calls: every function over a stream returns only stream errors or its own documented error under its stated condition (Verus: NotEnoughSpace implies no free entry; free/truncate terminate on the error path), and an exhaustive single-fault enumeration (Kani, one harness per failing call index) shows Err(Io(e)) carries the failing call's error. Whole Dir operations are not decided.",
+         "note": _NOTE, "technique": "Verus postconditions over a Stream contract + Kani fault-injecting device, exhaustive single-fault enumeration"},
+ "C10": {"text": "DiskSlice::write replicates to each mirror and nowhere else; fat_slice selects all copies (mirroring) or only the active one; FAT32 set preserves the top four bits; alloc never returns entries 0/1 or padding entries; format patterns of entries 0/1.",
+         "note": _NOTE, "technique": "Kani geometry proofs over all validated BPBs + Verus frames on the table functions"},
+ "C11": {"text": "Every device write issued by a contracted function lands at the specification address of the object named by its arguments and inside the volume: offset_from_cluster exact and in range for all validated BPBs and all clusters; File::write's single data write inside the file's cluster; zeroing inside the allocated cluster; FAT/root slices inside their regions; 32-byte editor write; one-byte status write; FS-info sector. 'The object belongs to the operation' is C03's invariant plus glue.",
+         "note": _NOTE, "technique": "Kani device-log contracts + geometry proofs for all validated BPBs"},
+ "C12": {"text": "Mechanism proved: set_dirty_flag writes exactly one byte at 0x25/0x41 only when the flags change, never clears mount-time bits, set(true);set(false) restores the mount-time byte for all 256 values; FsIoAdapter::write and File::write mark dirty before returning / before touching data; unmount clears it after the FS-info write-back; FAT-entry-1 flags decoded for all raw values.",
+         "note": _NOTE, "technique": "Kani device-log contracts over all status bytes and flag states"},
+ "C13": {"text": "Each non-mutating call (File::read/seek, stats, read_status_flags, unmount/drop from a clean state) is proved to issue no device write on a write-forbidden device from any state reachable by non-mutating calls, and to preserve the three 'clean' latches; Verus frame clauses (bytes unchanged) for the read-only table functions.",
+         "note": _NOTE, "technique": "Kani harnesses over a write-forbidden nondeterministic device; Verus frame postconditions"},
+ "C14": {"text": "The flush postcondition that makes the crash argument go through: after File::flush/drop returns, the entry is clean, its 32 bytes were written if dirty, and the LAST device call is flush(); File::write hands data straight to the device; DiskSlice holds no buffer. Crash-point enumeration itself is outside this family.",
+         "note": _NOTE, "technique": "Kani device-log contracts (order of device calls)"},
+ "C15": {"text": "Per-character acceptance proved for every char against the documented set; every length 0..300; ShortNameGenerator::new total on empty and multi-byte-first names; LFN slot generation lossless per step for every name length. Multi-character combinations are bounded (<= 4 ASCII chars).",
+         "note": _NOTE, "technique": "Kani complete per-character / per-length harnesses; bounded string harnesses"},
+ "C16": {"text": "Legality of every generated alias for every generator state, checksum link (lfn_checksum = specification; every slot carries it), reset/increment of next_iteration, hex encoding; the uniqueness step (after add_existing(e), generate() != e) is in the thorough tier (heavy). The directory scan feeding the generator and the retry-loop termination are glue.",
+         "note": _NOTE, "technique": "Kani complete harnesses over the full generator state"},
+ "C17": {"text": "Every per-slot function the iterator calls is total on arbitrary bytes (slot codec, short-name decode, date/time decode incl. out-of-range values, checksum); the long-name builder step is in the thorough tier. Name-length bound and 'no foreign name' lemmas are not yet discharged (see DESIGN.md).",
+         "note": _NOTE, "technique": "Kani complete harnesses over all 32-byte slots / 16-bit date-time words"},
+ "C18": {"text": "Complete over the whole date/time domain: Kani function contracts on Date::encode / Time::encode (round trip at 10 ms / 2 s / 1 day resolution), decode total, setters touch only their fields, File::write stamps modified from the provider, read stamps accessed only with the option on, rename keeps stamps.",
+         "note": _NOTE, "technique": "Kani function contracts (proof_for_contract) + complete harnesses"},
+ "C19": {"text": "Contract equivalence: the cfg-selected long-name generator is proved against one and the same contract in the alloc and the fixed-buffer build. Byte-identity of images over histories is not decided.",
+         "note": _NOTE, "technique": "same Kani contract discharged under two feature sets"},
+ "C20": {"text": "Unbounded in volume size: offset_from_cluster / slices exact in 64 bits for every validated BPB up to 2^32-1 sectors x 4096 bytes and every cluster incl. the last; table offsets k*4, k*2, k+k/2 do not overflow for k <= 2^28+1; alloc_cluster wraps from any hint and finds a free cluster whenever one exists; File read/write at a 16 TiB fixture; default formatting for every size up to 2^32-1 sectors.",
+         "note": _NOTE, "technique": "Kani geometry proofs over all validated BPBs + Verus table contracts for any table size"},
 }
